@@ -635,6 +635,34 @@ func catalogue() []*entry {
 				e := evkParams(1, 0, 0, false)
 				return &bootstrapping.EvaluationKeys{EvkN1ToN2: kg.GenEvaluationKeyNew(w.skA, w.skA2, e), EvkN2ToN1: kg.GenEvaluationKeyNew(w.skA2, w.skA, e)}
 			}),
+			// same-typed fields pairwise different in content AND shape, so that a decoder that puts a key into the
+			// wrong field cannot go unnoticed
+			V("all-set-different-shapes", func(w *world, g *gen) any {
+				kg := rlwe.NewKeyGenerator(w.pA)
+				k := func(lq, lp, b2 int) *rlwe.EvaluationKey {
+					return kg.GenEvaluationKeyNew(w.skA, w.skA2, evkParams(lq, lp, b2, false))
+				}
+				return &bootstrapping.EvaluationKeys{EvkN1ToN2: k(0, 0, 0), EvkN2ToN1: k(1, 0, 0), EvkRealToCmplx: k(1, 1, 0), EvkCmplxToReal: k(2, 1, 0),
+					EvkDenseToSparse: k(0, 0, 15), EvkSparseToDense: k(2, 0, 0)}
+			}),
+			V("only-EvkN1ToN2", func(w *world, g *gen) any {
+				return &bootstrapping.EvaluationKeys{EvkN1ToN2: rlwe.NewKeyGenerator(w.pA).GenEvaluationKeyNew(w.skA, w.skA2, evkParams(0, 0, 0, false))}
+			}),
+			V("only-EvkN2ToN1", func(w *world, g *gen) any {
+				return &bootstrapping.EvaluationKeys{EvkN2ToN1: rlwe.NewKeyGenerator(w.pA).GenEvaluationKeyNew(w.skA, w.skA2, evkParams(0, 0, 0, false))}
+			}),
+			V("only-EvkRealToCmplx", func(w *world, g *gen) any {
+				return &bootstrapping.EvaluationKeys{EvkRealToCmplx: rlwe.NewKeyGenerator(w.pA).GenEvaluationKeyNew(w.skA, w.skA2, evkParams(0, 0, 0, false))}
+			}),
+			V("only-EvkCmplxToReal", func(w *world, g *gen) any {
+				return &bootstrapping.EvaluationKeys{EvkCmplxToReal: rlwe.NewKeyGenerator(w.pA).GenEvaluationKeyNew(w.skA, w.skA2, evkParams(0, 0, 0, false))}
+			}),
+			V("only-EvkDenseToSparse", func(w *world, g *gen) any {
+				return &bootstrapping.EvaluationKeys{EvkDenseToSparse: rlwe.NewKeyGenerator(w.pA).GenEvaluationKeyNew(w.skA, w.skA2, evkParams(0, 0, 0, false))}
+			}),
+			V("only-EvkSparseToDense", func(w *world, g *gen) any {
+				return &bootstrapping.EvaluationKeys{EvkSparseToDense: rlwe.NewKeyGenerator(w.pA).GenEvaluationKeyNew(w.skA, w.skA2, evkParams(0, 0, 0, false))}
+			}),
 		}},
 		// ---- multiparty shares
 		{name: "multiparty.PublicKeyGenShare", zero: Z[multiparty.PublicKeyGenShare](), vals: []value{
